@@ -717,13 +717,16 @@ class Cache:
         txn_id = self._txn_id
 
         if tid == txn_id:
+            # Nested: the outermost transaction removes the files.
             begin = False
+            filenames = self._txn_filenames
         else:
             while True:
                 try:
                     sql('BEGIN IMMEDIATE')
                     begin = True
                     self._txn_id = tid
+                    self._txn_filenames = filenames
                     break
                 except sqlite3.OperationalError:
                     if retry:
@@ -745,9 +748,15 @@ class Cache:
                 assert self._txn_id == tid
                 self._txn_id = None
                 sql('COMMIT')
-            for name in filenames:
-                if name is not None:
-                    _disk_remove(name)
+                for name in filenames:
+                    if name is not None:
+                        _disk_remove(name)
+
+    def _remove_after_commit(self, filename):
+        if self._txn_id == threading.get_ident():
+            self._txn_filenames.append(filename)
+        else:
+            self._disk.remove(filename)
 
     def set(self, key, value, expire=None, read=False, tag=None, retry=False):
         """Set `key` and `value` item in cache.
@@ -1325,7 +1334,7 @@ class Cache:
             return default
         finally:
             if filename is not None:
-                self._disk.remove(filename)
+                self._remove_after_commit(filename)
 
         if expire_time and tag:
             return value, db_expire_time, db_tag
@@ -1594,7 +1603,7 @@ class Cache:
                 continue
             finally:
                 if name is not None:
-                    self._disk.remove(name)
+                    self._remove_after_commit(name)
             break
 
         if expire_time and tag:
